@@ -14,10 +14,13 @@ Step     = {kw:"Given"|"When"|"Then"|"And"|"But"|"*", uid, o:outcome|"<col>", cl
 from __future__ import annotations
 
 OUTCOMES = ["pass", "fail", "raise", "pending", "undefined", "skip", "interrupt", "convert"]
+# further outcomes used by individual checks: "abort" (step calls context.abort()),
+# "convert_key" (type converter raises KeyError instead of ValueError)
 PHRASE = {
     "pass": "passes", "fail": "fails", "raise": "raises", "pending": "pends",
     "undefined": "lacks", "skip": "skips", "interrupt": "interrupts",
-    "convert": "misconverts 12x", "act": "acts", "nest": "nests",
+    "convert": "misconverts 12x", "act": "acts", "nest": "nests", "abort": "aborts",
+    "convert_key": "misconverts k12",
 }
 STEP_TYPES = ("given", "when", "then")
 KW_TYPE = {"Given": "given", "When": "when", "Then": "then"}
@@ -48,6 +51,8 @@ def step_outcome(step, row=None, run_index=0):
         acts = step["acts"]
         return acts[run_index % len(acts)]
     if o.startswith("<"):
+        if not row or o[1:-1] not in row:
+            return "undefined"      # placeholder text outside an outline row: no such step definition
         phrase = row[o[1:-1]]
         for k, v in PHRASE.items():
             if v == phrase:
